@@ -36,6 +36,7 @@ var (
 	cDupFreq        = simrt.RegisterCounter("fault_duplicate_of_standard_frequency")
 	cZeroFreq       = simrt.RegisterCounter("fault_frequency_zero")
 	cFixedAdd       = simrt.RegisterCounter("probe_addchannel_on_fixed_plan")
+	cAddOther       = simrt.RegisterCounter("addchannel_did_something_else_than_append_and_the_model_followed")
 	cCFListChan     = simrt.RegisterCounter("probe_cflist_channel_list")
 	cCFListMask     = simrt.RegisterCounter("probe_cflist_channel_mask")
 	cJoinAccept     = simrt.RegisterCounter("probe_join_accept_wire_roundtrip")
@@ -390,6 +391,7 @@ func (st *state) op(r *sim.Rand) {
 		if grid {
 			st.grid[n] = true
 		}
+		st.followAdd(n, f, minDR, maxDR)
 		if len(st.m.CustomIdx()) > 5 {
 			simrt.Count(cSixCustom)
 		}
@@ -656,6 +658,93 @@ func (st *state) observe(r *sim.Rand) {
 		sim.Guard("panic", func() { b.GetEnabledUplinkDataRates() })
 	}
 	st.cflist()
+}
+
+// followAdd: what an accepted AddChannel does to the plan beyond "there is
+// now a custom channel with these parameters" is not in the statement (a band
+// may append a channel, recognise one it already has, fill an unused slot).
+// The model appended; if the band did something else that leaves the standard
+// channels and the other custom channels as they were, the model follows the
+// band. Anything else stays different from the model and is reported by the
+// comparisons that follow every operation.
+func (st *state) followAdd(nBefore int, f uint32, minDR, maxDR int) {
+	var obs []spec.Chan
+	ok := true
+	if sim.Guard("panic", func() {
+		custom, enabled := map[int]bool{}, map[int]bool{}
+		for _, i := range st.b.GetCustomUplinkChannelIndices() {
+			custom[i] = true
+		}
+		for _, i := range st.b.GetEnabledUplinkChannelIndices() {
+			enabled[i] = true
+		}
+		all := st.b.GetUplinkChannelIndices()
+		for k, i := range all {
+			if i != k {
+				ok = false
+				return
+			}
+			c, err := st.b.GetUplinkChannel(i)
+			if err != nil {
+				ok = false
+				return
+			}
+			obs = append(obs, spec.Chan{Freq: c.Frequency, MinDR: c.MinDR, MaxDR: c.MaxDR, Enabled: enabled[i], Custom: custom[i]})
+		}
+	}) || !ok {
+		return
+	}
+	m := st.m.Chans // the model after its own append
+	same := len(obs) == len(m)
+	for i := 0; same && i < len(m); i++ {
+		same = obs[i] == m[i]
+	}
+	if same {
+		return
+	}
+	if len(obs) < nBefore || len(obs) > nBefore+1 {
+		return
+	}
+	isNew := func(c spec.Chan) bool { return c.Custom && c.Freq == f && c.MinDR == minDR && c.MaxDR == maxDR }
+	found := false
+	for i, c := range obs {
+		if isNew(c) {
+			found = true
+		}
+		if i >= nBefore {
+			if !c.Custom {
+				return
+			}
+			continue
+		}
+		old := m[i]
+		switch {
+		case !old.Custom:
+			if c != old {
+				return // a standard channel was altered
+			}
+		case old.Freq == 0 && isNew(c):
+			// an unused slot was filled
+		case isNew(c) && isNew(old):
+			// the channel that was "added again" (it may have been enabled again)
+		default:
+			if c != old {
+				return
+			}
+		}
+	}
+	if !found {
+		return
+	}
+	simrt.Count(cAddOther)
+	grid := st.grid[nBefore]
+	delete(st.grid, nBefore)
+	st.m.Chans = obs
+	for i, c := range obs {
+		if isNew(c) && grid {
+			st.grid[i] = true
+		}
+	}
 }
 
 // ownerWriteInts is what every caller may do with a slice it was handed:
